@@ -120,9 +120,11 @@ def decodeSpec (num : Nat) (toks : List String) : Option Property := do
       let opts ← strList (m.get "eopts")
       let epre ← optStr (m.get "epre")
       let inn ← strList (m.get "in"); let nin ← strList (m.get "nin")
+      let eodesc ← strList (m.get "eodesc"); let edesc ← optStr (m.get "edesc")
       let tn := "E" ++ capitalize name
       -- `strcase.ToScreamingSnake(name) + "_"` (strcase as modelled by J5V/Compile/Strcase.lean)
-      let decl : EnumDecl := { name := tn, declPrefix := epre, defaultPrefix := screamingSnakeName tn ++ "_", options := opts }
+      let decl : EnumDecl := { name := tn, declPrefix := epre, defaultPrefix := screamingSnakeName tn ++ "_", options := opts,
+                                  description := edesc.getD "", descs := eodesc }
       pure (Schema.enum decl (if r then some { inn := inn, notIn := nin } else none) lr)
     | "obj" => pure (Schema.object "foo.v1.Bar" (m.get "flat" == "1") r)
     | "oneof" => pure (Schema.oneof "foo.v1.On" r lr)
@@ -439,6 +441,7 @@ structure FlatRow where
   types : String := "~"
   lr : String := "~"
   epfx : String := "~"
+  edesc : String := "~"
   eopts : String := "~"
 
 def flatOfSchema : Schema → FlatRow
@@ -459,7 +462,10 @@ def flatOfSchema : Schema → FlatRow
     { kind := "enum", ref := hexStr ("foo.v1." ++ decl.name), lr := showLR lr,
       inn := showNames ((rules.map (·.inn)).getD []), nin := showNames ((rules.map (·.notIn)).getD []),
       epfx := hexStr decl.pfx,
-      eopts := String.intercalate "," (decl.values.map fun (n, k) => s!"{hexStr (trimPrefix decl.pfx n)}:{k}") }
+      edesc := if decl.description.isEmpty then "~" else hexStr decl.description,
+      -- the canonical declaration lists UNSPECIFIED explicitly: values and descriptions are aligned
+      eopts := String.intercalate "," ((decl.values.zip decl.optDescs).map fun ((n, k), d) =>
+        s!"{hexStr (trimPrefix decl.pfx n)}:{k}:{hexStr d}") }
   | .key format entity lr =>
     let (kf, kpat) := match format with
       | none => ("inf", "~") | some .informal => ("inf", "~")
@@ -504,6 +510,6 @@ def showFlat (pname : String) (p : Property) : String :=
     s!"pat={r.pat}", s!"const={r.const}", s!"in={r.inn}", s!"nin={r.nin}",
     s!"sfmt={r.sfmt}", s!"kf={r.kf}", s!"kpat={r.kpat}", s!"pk={r.pk}", s!"fk={r.fk}", s!"tk={r.tk}",
     s!"ref={r.ref}", s!"flat={r.flat}", s!"od={r.od}", s!"types={r.types}", s!"lr={r.lr}",
-    s!"epfx={r.epfx}", s!"eopts={r.eopts}" ]
+    s!"epfx={r.epfx}", s!"edesc={r.edesc}", s!"eopts={r.eopts}" ]
 
 end J5V.Rules.Wire
